@@ -83,15 +83,19 @@ def run(p, report, tier):
         raise AnalysisError(f"C05: only {len(ents)} pool query entities found (expected >= 32)")
     report.analysed["entities"] = [f"{ci.name}.{f.name}" for ci, f in ents]
     diag = set()
+    callstats = {}
     nev = 0
     for ci, f in ents:
         it = Interp(p)
         it.run_entity(ci, f)
         nev += len(it.events)
         diag |= it.diag
+        for _k, _v in it.stats.items():
+            callstats[_k] = callstats.get(_k, 0) + _v
         check_entity(p, report, ci, f, it)
     report.analysed["events"] = nev
     report.analysed["diagnostics"] = sorted(diag)
+    report.analysed["call_resolution"] = callstats
     from .. import absint
     report.tables["alias_preserving_functions"] = sorted(absint.ALIAS_FUNCS)
     report.tables["alias_preserving_methods"] = sorted(absint.ALIAS_METHODS)
